@@ -219,14 +219,18 @@ class Env:
         self.loops.append(loop)
         return loop
 
-    def run(self, main, name="p0"):
+    def run(self, main, name="p0", max_iterations=None):
         """run coroutine function main(loop) on a fresh loop; returns its result"""
         loop = self.new_loop(name)
+        if max_iterations:
+            loop.max_iterations = max_iterations
         was_enabled = gc.isenabled()
         gc.disable()        # collection times must not depend on the host process
         try:
             return loop.run_coro(main(loop))
         finally:
+            self.world.counters["loop/iterations-max"] = max(
+                self.world.counters["loop/iterations-max"], loop.iterations)
             gc.collect()    # deliver every "never retrieved" report now
             if was_enabled:
                 gc.enable()
